@@ -190,7 +190,14 @@ func init() {
 			}
 			// args[0] is `any` holding the interface value converted: unwrap
 			name := args[1].(*StringV).litOr("")
-			id, ok := typeIDs[name]
+			id, ok := 0, false
+			if ty := s.eng.resolveTypeName(name); ty != nil {
+				// "[*]pkg.Type" names a real type of a loaded package: always the id of THAT type
+				id, ok = typeID(ty), true
+			}
+			if !ok {
+				id, ok = typeIDs[name]
+			}
 			if !ok {
 				for _, ty := range typeByID {
 					if shortType(ty) == name {
@@ -995,6 +1002,30 @@ func (s *State) logBase() int {
 		return s.callerLogBase[n-1]
 	}
 	return 0
+}
+
+// resolveTypeName: "[*]pkgname.TypeName" -> the named type (or pointer to it) of a loaded package, nil if unknown.
+func (e *Engine) resolveTypeName(name string) types.Type {
+	ptr := strings.HasPrefix(name, "*")
+	n := strings.TrimPrefix(name, "*")
+	i := strings.LastIndex(n, ".")
+	if i < 0 {
+		return nil
+	}
+	pn, tn := n[:i], n[i+1:]
+	for _, p := range e.prog.AllPackages() {
+		if p.Pkg.Name() != pn || !strings.HasPrefix(p.Pkg.Path(), e.modulePrefix) {
+			continue
+		}
+		if o, ok := p.Pkg.Scope().Lookup(tn).(*types.TypeName); ok {
+			var t types.Type = o.Type()
+			if ptr {
+				t = types.NewPointer(t)
+			}
+			return t
+		}
+	}
+	return nil
 }
 
 func (s *State) logEntry(idx Value) *LogEntry {
